@@ -334,6 +334,7 @@ class Inliner:
         self.declined_sites: Dict[str, int] = {}   # helper qualname -> number of call sites left as calls
         self.fn_alias: Dict[str, FuncInfo] = {}    # (renamed) parameter name -> function it was bound to at an inlined call
         self._local_cls_cache: Dict[tuple, object] = {}
+        self.obj_class: Dict[str, object] = {}     # synthetic object name -> ClassInfo (inlined constructor calls)
 
     def is_new(self, fi: FuncInfo) -> bool:
         if self.reference is None or fi.qualname in self.reference:
@@ -388,6 +389,18 @@ class Inliner:
                 res = self.P.resolve_call(root, call)
             except Exception:
                 return None
+            if len(res.targets) == 1 and res.how.startswith("ctor:") and usage == "value" and site is call:
+                # construction of a helper class unknown to the reference tree: its __init__ is inlined on a
+                # synthetic object name (see CFG._hoist)
+                cq = res.how.split(":", 1)[1]
+                ci = self.P.classes.get(cq)
+                init = res.targets[0]
+                if ci is not None and self.reference is not None and cq not in self.reference and init.cls is ci \
+                        and not self._why_not(root, init, site, call, stack, usage):
+                    t2 = copy.copy(init)
+                    t2.ctor_of = ci
+                    return t2
+                return None
             if len(res.targets) != 1 or res.how.startswith("ctor") or res.how in ("cha",):
                 return None
             t = res.targets[0]
@@ -411,6 +424,11 @@ class Inliner:
         """``obj.method`` where ``obj`` is a local bound exactly once, to an instance of a class unknown to the
         reference tree (``obj = Helper(...)`` / ``obj = Helper.classmethod(...)``): that class's method."""
         name = fn.value.id
+        if name in self.obj_class:
+            m = self.P.lookup_method(self.obj_class[name], fn.attr)
+            if m is None or "property" in m.decorators or "staticmethod" in m.decorators or "classmethod" in m.decorators:
+                return None
+            return m
         key = (root.qualname, name)
         if key not in self._local_cls_cache:
             ci = None
@@ -421,6 +439,8 @@ class Inliner:
                     assigns.append(n)
             values = [n.value for n in walk_local(base.node) if isinstance(n, (ast.Assign, ast.AnnAssign)) and n.value is not None
                       and any(isinstance(t_, ast.Name) and t_.id == name for t_ in (n.targets if isinstance(n, ast.Assign) else [n.target]))]
+            if len(values) == 1 and isinstance(values[0], ast.Await):
+                values = [values[0].value]
             if len(assigns) == 1 and len(values) == 1 and isinstance(values[0], ast.Call) and name not in base.params:
                 d = dotted(values[0].func)
                 if d:
@@ -540,6 +560,18 @@ class Inliner:
                 return v
             return "%s__i%d" % (v, k)
 
+        ctor_obj = None
+        if getattr(t, "ctor_of", None) is not None and bound_self is not None:
+            ctor_obj = "__obj_%s_%d" % (t.ctor_of.name.strip("_"), k)
+            used.add(ctor_obj)
+            self.obj_class[ctor_obj] = t.ctor_of
+            mapping[bound_self] = ctor_obj
+            mk = ast.Assign(targets=[ast.Name(id=ctor_obj, ctx=ast.Store())],
+                            value=ast.Call(func=ast.Name(id="__new__", ctx=ast.Load()), args=[ast.Constant(value=t.ctor_of.qualname), ast.Constant(value=ctor_obj)], keywords=[]),
+                            lineno=ln, col_offset=0)
+            mk.inline_bind = t.qualname
+            pre.append(mk)
+            bound_self = None
         if bound_self is not None:
             recv = dotted(call.func.value) if isinstance(call.func, ast.Attribute) else None
             target_self = "self" if "classmethod" not in t.decorators else "cls"
@@ -582,12 +614,15 @@ class Inliner:
             mapping[v] = fresh(v)
         used |= set(mapping.values())
         ret = None
-        if want_ret:
+        if want_ret and ctor_obj is not None:
+            ret = ctor_obj
+        elif want_ret:
             ret = "__ret_%s_%d" % (t.name.strip("_"), k)
-            used.add(ret)
-            init = ast.Assign(targets=[ast.Name(id=ret, ctx=ast.Store())], value=ast.Constant(value=None), lineno=ln, col_offset=0)
-            init.inline_bind = t.qualname
-            pre.append(init)
+            if ctor_obj is None:
+                used.add(ret)
+                init = ast.Assign(targets=[ast.Name(id=ret, ctx=ast.Store())], value=ast.Constant(value=None), lineno=ln, col_offset=0)
+                init.inline_bind = t.qualname
+                pre.append(init)
         body = [copy.deepcopy(s) for s in t.node.body
                 if not (isinstance(s, ast.Expr) and isinstance(s.value, ast.Constant) and isinstance(s.value.value, str))]
         ren = _Renamer({a_: b_ for a_, b_ in mapping.items() if a_ != b_})
